@@ -120,7 +120,8 @@ class Reader:
         if isinstance(e, ast.BinOp) and isinstance(e.op, (ast.Add, ast.Sub, ast.Mult)):
             a, b = self.ev(e.left), self.ev(e.right)
             return reduce_pyth(a + b if isinstance(e.op, ast.Add) else a - b if isinstance(e.op, ast.Sub) else a * b)
-        if isinstance(e, ast.Subscript) and isinstance(e.value, ast.Name) and e.value.id == self.R and isinstance(e.slice, ast.Tuple) \
+        # (the 3x3 block of the homogeneous argument T is the same matrix: T[i, j] with i, j < 3 reads R[i, j])
+        if isinstance(e, ast.Subscript) and isinstance(e.value, ast.Name) and e.value.id in (self.R, 'T') and isinstance(e.slice, ast.Tuple) \
                 and len(e.slice.elts) == 2 and all(isinstance(x, ast.Constant) and isinstance(x.value, int) for x in e.slice.elts):
             i, j = (x.value for x in e.slice.elts)
             if 0 <= i < 3 and 0 <= j < 3:
@@ -576,7 +577,20 @@ def check_pivot_tables(run, key='base/transforms3d:tr2rpy', rule='R19'):
             if b is None or not isinstance(b['_L'], (ast.List, ast.Tuple)):
                 continue
             kname = st.targets[0].id
-            cands = [canon(fi, x, inline=False) for x in b['_L'].elts]
+
+            class _RT(ast.NodeTransformer):
+                # the 3x3 block of the homogeneous argument is the rotation matrix itself: T[i, j] (i, j < 3) reads R[i, j]
+                def visit_Subscript(self2, n_):
+                    self2.generic_visit(n_)
+                    if isinstance(n_.value, ast.Name) and n_.value.id == 'T' and isinstance(n_.slice, ast.Tuple) and len(n_.slice.elts) == 2 and \
+                            all(isinstance(z, ast.Constant) and isinstance(z.value, int) and 0 <= z.value < 3 for z in n_.slice.elts):
+                        n_.value = ast.Name(id='R', ctx=ast.Load())
+                    return n_
+            import copy as _cp
+
+            def cn(x):
+                return _RT().visit(_cp.deepcopy(canon(fi, x, inline=False)))
+            cands = [cn(x) for x in b['_L'].elts]
             chain = blk[i + 1] if i + 1 < len(blk) and isinstance(blk[i + 1], ast.If) else None
             if chain is None:
                 continue
@@ -593,7 +607,7 @@ def check_pivot_tables(run, key='base/transforms3d:tr2rpy', rule='R19'):
                     run.violation(rule, f.key, construct, 'the candidate list has %d entries: no branch index %d' % (len(cands), idx), f=f, node=t)
                     continue
                 want = ast.dump(cands[idx])
-                dens = [canon(fi, d.right, inline=False) for d in divs]
+                dens = [cn(d.right) for d in divs]
                 if any(ast.dump(d) == want for d in dens):
                     run.holds(rule, f.key, construct, 'divides by candidate %d of the pivot list (%s)' % (idx, src(cands[idx], 20)), f=f, node=t, nontrivial=True)
                 elif dens:
